@@ -57,24 +57,17 @@ theorem applyAll_dec_same (l : List Nat) (P : Nat → Part) (j : Nat) :
     (applyAll (fun _ p => partDecRef p) l P j).mem = (P j).mem ∧
     (applyAll (fun _ p => partDecRef p) l P j).src = (P j).src ∧
     (P j).delCount ≤ (applyAll (fun _ p => partDecRef p) l P j).delCount := by
-  induction l generalizing P with
-  | nil => exact ⟨rfl, rfl, rfl, Nat.le_refl _⟩
-  | cons w l ih =>
-    simp only [applyAll]
-    obtain ⟨a, b, c, d⟩ := ih (upd P w (partDecRef (P w)))
-    by_cases hj : j = w
-    · subst hj
-      rw [upd_same] at a b c d
-      refine ⟨a.trans (partDecRef_pid _), b.trans (partDecRef_mem _), c.trans (partDecRef_src _), ?_⟩
-      refine Nat.le_trans ?_ d
-      unfold partDecRef; dsimp only
-      split
+  unfold applyAll
+  dsimp only
+  split
+  · refine ⟨partDecRef_pid _, partDecRef_mem _, partDecRef_src _, ?_⟩
+    unfold partDecRef; dsimp only
+    split
+    · exact Nat.le_refl _
+    · split
       · exact Nat.le_refl _
-      · split
-        · exact Nat.le_refl _
-        · dsimp only; omega
-    · rw [upd_ne _ _ hj] at a b c d
-      exact ⟨a, b, c, d⟩
+      · dsimp only; omega
+  · exact ⟨rfl, rfl, rfl, Nat.le_refl _⟩
 
 /-- `snapshot.decRef` on a snapshot that still has a holder does not touch its part list -/
 theorem snapDecRef_keeps (ok : Nat → Prop) {st : State} {s : Nat} (h : Inv' (some s) st) :
@@ -164,7 +157,7 @@ theorem introducePart_keeps {ok : Nat → Prop} {st : State} (h : Inv st) (hok :
   dsimp only
   have h1 : Inv (pin 0 st) := pin_inv 0 h
   have h2 : Inv { pin 0 st with nBatch := (pin 0 st).nBatch + 1 } := inv_ghost _ (pin 0 st).tblClosed h1
-  have hb := build_filter_append (st := { pin 0 st with nBatch := (pin 0 st).nBatch + 1 }) h2 loopFn_inc
+  have hb := build_filter_append (st := { pin 0 st with nBatch := (pin 0 st).nBatch + 1 }) h2 (loopFn_inc _)
     { pid := (pin 0 st).curPid + 1, mem := true, ref := 1, removable := false, closed := false, delCount := 0,
       src := [(pin 0 st).nBatch + 1] } rfl rfl rfl rfl
   have hcp : curParts { pin 0 st with nBatch := (pin 0 st).nBatch + 1 } = curParts (pin 0 st) := rfl
@@ -185,7 +178,7 @@ theorem syncOp_keeps {ok : Nat → Prop} {st : State} (ids : List Nat) (h : Inv 
   | some c =>
     dsimp only
     have h1 : Inv (pin 0 st) := pin_inv 0 h
-    have hb := build_filter h1 (loopFn_remove fun x => ids.contains (pidOf (pin 0 st) x))
+    have hb := build_filter h1 (loopFn_remove (pin 0 st).P fun pid => ids.contains pid)
     exact ((pin_keeps ok 0 st).trans (publish_keeps ok h1 hb)).trans (unpin_keeps 0 (publish_inv h1 hb) hok)
 
 theorem mergeOp_keeps {ok : Nat → Prop} {st : State} (ids : List Nat) (h : Inv st) (hok : ∀ j, ok j → j ≠ 0) :
@@ -200,16 +193,15 @@ theorem mergeOp_keeps {ok : Nat → Prop} {st : State} (ids : List Nat) (h : Inv
     · exact (pin_keeps ok 0 st).trans (unpin_keeps 0 h1 hok)
     · have h2 : Inv (pin 0 (pin 0 st)) := pin_inv 0 h1
       have hb := build_filter_append h2
-        (loopFn_remove fun x =>
-          (((curParts (pin 0 st)).filter fun w => ids.contains (pidOf (pin 0 st) w)).map (pidOf (pin 0 st))).contains
-            (pidOf (pin 0 (pin 0 st)) x))
+        (loopFn_remove (pin 0 (pin 0 st)).P fun pid =>
+          (((curParts (pin 0 st)).filter fun w => ids.contains (pidOf (pin 0 st) w)).map (pidOf (pin 0 st))).contains pid)
         { pid := (pin 0 st).curPid + 1, mem := false, ref := 1, removable := false, closed := false, delCount := 0,
           src := ((curParts (pin 0 st)).filter fun w => ids.contains (pidOf (pin 0 st) w)).flatMap
             fun x => ((pin 0 st).P x).src } (by simp) rfl rfl rfl
       have h3 := publish_inv h2 hb
       have k := ((pin_keeps ok 0 st).trans (pin_keeps ok 0 (pin 0 st))).trans (publish_keeps ok h2 hb)
       have k' := (k.trans (unpin_keeps 0 h3 hok)).trans (unpin_keeps 0 (unpin_inv 0 h3) hok)
-      simp only [curParts_pin, pin_P, pin_nP, pin_curPid] at k' ⊢
+      simp only [curParts_pin, pin_P, pin_nP, pin_curPid, pidOf] at k' ⊢
       exact k'
 
 theorem closeOp_keeps {ok : Nat → Prop} {st : State} (h : Inv st) : Keeps ok st (closeOp st) := by
